@@ -32,6 +32,8 @@ def predicate(name, r):
     trace = r.get("trace") or []
     ks = edit_kinds(trace)
     ops = step_ops(trace)
+    if name == "hostile_step_present":
+        return any(st.get("op") in ("decode_hostile", "corrupt_store") or str(st.get("net", "")).startswith("corrupt_") for st in trace)
     if name == "wrong_credential_kind":
         return bool((cfg.get("extra") or {}).get("wrong_kind"))
     if name == "gc_enabled":
@@ -144,6 +146,8 @@ def counterfactual_config(kind, cfg):
         cfg["extra"] = dict(cfg.get("extra") or {})
         cfg["extra"]["wrong_kind"] = 0
         return cfg
+    if kind == "no_corruption":
+        return cfg
     if kind in ("no_dbfault", "uniform_presence_flag", "reattach_as_new_client", "no_undo_redo", "split_updates"):
         return cfg
     raise ValueError("unknown counterfactual " + kind)
@@ -152,6 +156,16 @@ def counterfactual_config(kind, cfg):
 def counterfactual_trace(kind, trace):
     if kind == "no_undo_redo":
         return [st for st in trace if st.get("op") not in ("undo", "redo")]
+    if kind == "no_corruption":
+        out = []
+        for st in trace:
+            if st.get("op") in ("decode_hostile", "corrupt_store"):
+                continue
+            if str(st.get("net", "")).startswith("corrupt_"):
+                st = dict(st)
+                st.pop("net", None)
+            out.append(st)
+        return out
     if kind == "split_updates":
         out = []
         for st in trace:
